@@ -487,6 +487,43 @@ pub struct V6 {
     pub ignored: P5,
 }
 
+// ---- family W: field-level inline and variant-level `as` inside tagged newtype variants ----
+
+#[derive(TS)]
+#[ts(export_to = p(62), rename = n(62), tag = "t", content = "c")]
+pub enum W0 {
+    A(#[ts(inline)] P4w),
+}
+
+#[derive(TS)]
+#[ts(export_to = p(63), rename = n(63), tag = "t")]
+pub enum W1 {
+    A(#[ts(inline)] P9w),
+}
+
+#[derive(TS)]
+#[ts(export_to = p(64), rename = n(64), tag = "t", content = "c")]
+pub enum W2 {
+    #[ts(as = "P0")]
+    A(P1),
+}
+
+#[derive(TS)]
+#[ts(export_to = p(65), rename = n(65), tag = "t")]
+pub enum W5 {
+    #[ts(as = "P2")]
+    A(P3),
+}
+
+/// `as` on a unit variant of a tagged enum: the replacement type is never rendered
+#[derive(TS)]
+#[ts(export_to = p(66), rename = n(66), tag = "t")]
+pub enum W3 {
+    #[ts(as = "P5")]
+    U,
+    B { x: P6 },
+}
+
 // ---- family L: literal attributes, as in ordinary user code -------------------------------
 
 #[derive(TS)]
@@ -519,7 +556,7 @@ pub struct L3 {
 pub struct L4(pub String);
 
 /// Number of definitions that read the table (`p(i)` / `n(i)`).
-pub const DER_DEFS: usize = 62;
+pub const DER_DEFS: usize = 67;
 
 #[derive(Clone, Copy, Debug)]
 pub enum Place {
@@ -618,7 +655,12 @@ pub const V6_: usize = 71;
 pub const G_DUMMY: usize = 72;
 pub const H_DUMMY: usize = 73;
 pub const K2_DUMMY: usize = 74;
-pub const DER_HANDLES: usize = 75;
+pub const W0_: usize = 75;
+pub const W1_: usize = 76;
+pub const W2_: usize = 77;
+pub const W5_: usize = 78;
+pub const W3_: usize = 79;
+pub const DER_HANDLES: usize = 80;
 
 use Place::{Lit, RenameOnly, Table as Tb};
 
@@ -730,6 +772,16 @@ pub const MANIFEST: [DerInfo; DER_HANDLES] = [
     DerInfo { label: "G<Dummy>", place: Tb(4), import_refs: &[], reach_refs: &[] },
     DerInfo { label: "H<Dummy>", place: Tb(5), import_refs: &[A2_, A1_], reach_refs: &[A2_, A1_] },
     DerInfo { label: "K2<Dummy>", place: Tb(25), import_refs: &[A2_], reach_refs: &[A2_] },
+    // type W0 = { "t": "A", "c": { inner: P4 } };
+    DerInfo { label: "W0", place: Tb(62), import_refs: &[P4_], reach_refs: &[P4_] },
+    // type W1 = { "t": "A" } & { k: P9 };
+    DerInfo { label: "W1", place: Tb(63), import_refs: &[P9_], reach_refs: &[P9_] },
+    // type W2 = { "t": "A", "c": P0 };
+    DerInfo { label: "W2", place: Tb(64), import_refs: &[P0_], reach_refs: &[P0_] },
+    // type W5 = { "t": "A" } & P2;
+    DerInfo { label: "W5", place: Tb(65), import_refs: &[P2_], reach_refs: &[P2_] },
+    // type W3 = { "t": "U" } | { "t": "B", x: P6 };   (P5 is not rendered, so not needed)
+    DerInfo { label: "W3", place: Tb(66), import_refs: &[P6_], reach_refs: &[P6_] },
 ];
 
 pub fn der_handle(h: usize) -> Handle {
@@ -807,6 +859,11 @@ pub fn der_handle(h: usize) -> Handle {
         V4_ => handle::<V4>(l),
         V5_ => handle::<V5>(l),
         V6_ => handle::<V6>(l),
+        W0_ => handle::<W0>(l),
+        W1_ => handle::<W1>(l),
+        W2_ => handle::<W2>(l),
+        W5_ => handle::<W5>(l),
+        W3_ => handle::<W3>(l),
         G_DUMMY => handle::<G<ts_rs::Dummy>>(l),
         H_DUMMY => handle::<H<ts_rs::Dummy>>(l),
         K2_DUMMY => handle::<K2<ts_rs::Dummy>>(l),
